@@ -163,22 +163,40 @@ def facets(mod):
         disk = cross(dict(base, reg=None, bd=1), n=[6, 9], degree=[1, 3], direction=['inverse', 'forward'])
         F.append(('disk', disk, ('cleanup', 'all')))
         F.append(('disk-mem', cross(dict(base, reg=None, bd=1), n=[6, 9, 12], degree=[2, 3]), None))
+        # the degree is part of every key: all four, in memory and on disk
+        F.append(('degree-mem', cross(dict(base, reg=None), degree=[0, 1, 2, 3], n=[6, 9]), None))
+        F.append(('degree-disk', cross(dict(base, reg=None, bd=1), degree=[0, 1, 2, 3], n=[6, 9]), ('cleanup', 'all')))
     if mod == 'basex':
         base = dict(n=8, sig=0, reg=0, corr=True, dr=0, direction='inverse', bd=None)
-        F.append(('reg', cross(base, reg=[0, 1, 2], corr=[True, False], dr=[0, 1]), None))
+        F.append(('reg', cross(base, reg=[0, 1, 2], corr=[True, False]) + cross(base, reg=[0, 1], dr=[1]), None))
         F.append(('reg-dir', cross(base, reg=[0, 1], direction=['inverse', 'forward'], n=[8, 9]), None))
         disk = cross(dict(base, bd=1), n=[6, 8, 12], sig=[0, 1])
         F.append(('disk', disk, ('cleanup', 'all')))
         F.append(('disk-mem', disk, None))
+        F.append(('sigma-mem', cross(base, sig=[0, 1, 2], n=[6, 9]), None))
     if mod == 'dasch':
         disk = cross(dict(bd=1, dr=1.0), meth=[0, 1, 2], n=[6, 9])
         F.append(('disk', disk, ('cleanup',)))
         F.append(('size-dr', cross(dict(bd=None, meth=0), n=[5, 6, 9], dr=[1.0, 0.5]), None))
+        # the method is part of the key, in memory and on disk (without cleanup: memory first)
+        F.append(('method-mem', cross(dict(bd=None, dr=1.0), meth=[0, 1, 2], n=[9, 6]), None))
+        F.append(('method-disk-mem', disk, None))
     if mod == 'linbasex':
         base = dict(n=11, orders=[0, 2], angles=[0, 202], step=1, clip=0, bd=None)
         F.append(('step-clip', cross(base, step=[1, 2], clip=[0, 1], n=[9, 11]), None))
         disk = cross(dict(base, bd=1), n=[9, 11], orders=[[0, 2], [0, 1, 2]], angles=[[0, 202], [0, 102]])
         F.append(('disk', disk, ('cleanup',)))
+        # spellings that must NOT be identified: permutations of the orders and of the angles (the
+        # basis blocks follow the sequence given), step, clip; and spellings that may be (list /
+        # tuple / array).  Two orders and two angles is what the memory cache accepts.
+        perm2 = cross(base, orders=[[0, 2], [2, 0]], angles=[[0, 202], [202, 0]], spell=[0, 1])
+        perm3 = cross(base, orders=[[0, 1, 2], [0, 2, 1], [2, 1, 0], [1, 2], [2, 1]], angles=[[0, 202], [202, 0]])
+        F.append(('perm-mem', perm2, None))
+        F.append(('perm-disk', [dict(c, bd=1) for c in perm2], ('cleanup',)))
+        F.append(('perm3-disk', [dict(c, bd=1) for c in perm3], ('cleanup',)))
+        F.append(('perm3-disk-mem', [dict(c, bd=1, spell=2) for c in perm3], None))
+        F.append(('step-clip-disk', cross(dict(base, bd=1), step=[1, 2], clip=[0, 1], orders=[[0, 2], [2, 0]]),
+                  ('cleanup',)))
     if mod == 'rbasex':
         base = dict(shape=0, origin=0, rmax=0, order=2, odd=False, wid=0, direction='inverse', reg=0, out=0, bd=None)
         # which radii have data: all / a ring of zero weights / rmax beyond the corners
@@ -192,6 +210,10 @@ def facets(mod):
             F.append(('disk-' + d, [dict(c, direction=d) for c in disk], ('cleanup', 'all')))
         F.append(('disk-dir', cross(dict(base, bd=1), order=[2, 4], odd=[False, True],
                                     direction=['inverse', 'forward']), ('cleanup', 'all')))
+        # order / odd / rmax are the key of the memory cache as well
+        F.append(('key-mem', cross(base, order=[1, 2, 4], odd=[False, True], rmax=[0, 1]), None))
+        F.append(('key-mem-fwd', cross(dict(base, direction='forward'), order=[2, 4], odd=[False, True], rmax=[0, 1, 3]),
+                  None))
         # which image is built from the distributions: out x origin, for the two parities, in
         # a frame whose height is 2 rmax + 1 also for the off-centre origin (explicit rmax = 4)
         for order, odd in ((1, True), (2, True), (2, False)):
@@ -212,7 +234,7 @@ def facet_histories(facet, rng, quick):
     n = len(alpha)
     idx = [list(t) for t in itertools.product(range(n), repeat=2)]
     triples = [list(t) for t in itertools.product(range(n), repeat=3)]
-    cap = 40 if quick else 600
+    cap = 16 if quick else 600
     if len(triples) > cap:
         triples = [triples[i] for i in rng.choice(len(triples), size=cap, replace=False)]
     idx += triples
@@ -320,6 +342,7 @@ def run(ctx):
     t0 = time.time()
     rng = np.random.default_rng(ctx.seed)
     pr = vlib.coq_props('C07')
+    ctx.cov['wall_proofs_s'] = round(time.time() - t0, 1)
     refuted = [t for t in pr['theorems'] if t.endswith('_refuted')]
     partial = [t for t in pr['theorems'] if t.endswith('_partial')]
     ctx.cov.update(obligations=len(pr['theorems']), discharged=pr['discharged'], theorems=pr['theorems'],
@@ -340,6 +363,7 @@ def run(ctx):
     broken_corr = []
     try:
         for mod in MODS:
+            tm = time.time()
             ad = H.ADAPTERS[mod](env)
             hists = []
             for ops in scenarios(mod, rng) + neighbour_histories(mod, rng, ctx.quick):
@@ -349,6 +373,7 @@ def run(ctx):
                 hists.append(H.run_history(ad, worker, ad.gen_history(rng, ln)))
             allh[mod] = (ad, hists)
             texts.append(correspondence(ad, hists, mod))
+            ctx.cov.setdefault('wall_histories_s', {})[mod] = round(time.time() - tm, 1)
             for h in hists:
                 for r in h:
                     k = '%s/%s' % (mod, r['op'][0])
@@ -356,7 +381,9 @@ def run(ctx):
         # basis-dir helpers
         dh, n_dir, dir_text, dir_pairs = dir_helper_checks(ctx, root)
         texts.append(dir_text)
+        tm = time.time()
         outs = vlib.coq_eval_many(texts)
+        ctx.cov['wall_coq_correspondence_s'] = round(time.time() - tm, 1)
         n_ok = n_steps = 0
         for name, _ in texts:
             rc, out = outs[name]
@@ -385,6 +412,7 @@ def run(ctx):
 
         # fresh-process sample: the worker's reset equals a brand-new interpreter
         n_fp = 0
+        tm = time.time()
         for mod in MODS:
             ad, hists = allh[mod]
             calls = [r for h in hists for r in h if r['op'][0] == 'call' and r['ref'] is not None]
@@ -398,6 +426,7 @@ def run(ctx):
                 if not okk:
                     broken_corr.append(('fresh-worker', 'fresh worker and a new interpreter disagree on %s %r' % (mod, r['op'][1])))
         ctx.cov['fresh_process_samples'] = n_fp
+        ctx.cov['wall_fresh_process_s'] = round(time.time() - tm, 1)
 
         # search: the property on every call of every history
         seen = {}
